@@ -43,6 +43,10 @@ func c03Build(s string) (*url.URL, error) {
 			return &url.URL{Scheme: parts[2], Opaque: "//a.example/a"}, nil
 		case "space":
 			return &url.URL{Scheme: "http", Host: "a.example", Path: "/a b"}, nil
+		case "pathchar": // a literal character in Path, encoded by net/url as it sees fit
+			var n int
+			fmt.Sscanf(parts[2], "%d", &n)
+			return &url.URL{Scheme: "http", Host: "a.example", Path: "/p" + string(rune(n))}, nil
 		case "upperhost":
 			return &url.URL{Scheme: "http", Host: "A.EXAMPLE:80", Path: "/a"}, nil
 		}
@@ -73,6 +77,19 @@ func c03Grid() []string {
 		for _, pa := range []string{"/a", "/%41"} {
 			out = append(out, "http://"+u+"a.example"+pa)
 		}
+	}
+	// every ASCII character: its percent-escape (both cases) and, where a Go
+	// client can express it, the literal - in the path and in the query
+	for c := 0; c < 128; c++ {
+		out = append(out, fmt.Sprintf("http://a.example/p%%%02X", c), fmt.Sprintf("http://a.example/p%%%02x", c),
+			fmt.Sprintf("http://a.example/p?k=%%%02X", c), fmt.Sprintf("http://a.example/p?k=%%%02x", c))
+		if c > 0x20 && c < 0x7f && c != '%' && c != '#' && c != '?' {
+			out = append(out, "http://a.example/p"+string(rune(c)))
+		}
+		if c > 0x20 && c < 0x7f && c != '%' && c != '#' {
+			out = append(out, "http://a.example/p?k="+string(rune(c)))
+		}
+		out = append(out, fmt.Sprintf("struct:pathchar:%d", c))
 	}
 	out = append(out, "struct:rawpath:", "struct:forcequery:", "struct:opaque:http", "struct:opaque:https", "struct:space:", "struct:upperhost:")
 	// drop what Go cannot parse / build a request for
@@ -110,6 +127,19 @@ func c03Random(r *rand.Rand) string {
 	if chance(r, 0.3) {
 		p += pick(r, c03Paths)
 	}
+	if chance(r, 0.3) {
+		c := 0x21 + r.IntN(0x5e)
+		switch r.IntN(3) {
+		case 0:
+			p += fmt.Sprintf("/x%%%02X", c)
+		case 1:
+			p += fmt.Sprintf("/x%%%02x", c)
+		default:
+			if c != '%' && c != '#' && c != '?' {
+				p += "/x" + string(rune(c))
+			}
+		}
+	}
 	s += p + pick(r, c03Queries)
 	if chance(r, 0.2) && !strings.Contains(s, "#") {
 		s += "#f"
@@ -146,6 +176,18 @@ func TestC03Bulk(t *testing.T) {
 		}
 		// whole grid in one cache
 		cases = append(cases, c03Case{URLs: grid})
+	}
+	if !r.Thorough() {
+		// quick: the ASCII escape family and the host/port family, each in one cache
+		var fam, hp []string
+		for _, u := range grid {
+			if strings.HasPrefix(u, "http://a.example/p") || strings.HasPrefix(u, "struct:pathchar") {
+				fam = append(fam, u)
+			} else if !strings.HasPrefix(u, "http://a.example") && !strings.HasPrefix(u, "struct:") {
+				hp = append(hp, u)
+			}
+		}
+		cases = append(cases, c03Case{URLs: fam}, c03Case{URLs: hp})
 	}
 	base := len(cases)
 	for i := 0; i < nsets; i++ {
